@@ -384,6 +384,21 @@ class GuardStates:
             return self._fact(ast.parse(f"{_path(t)} == {v.value!r}", mode="eval").body, True)
         return None
 
+    def _copy_facts(self, node: Node, f2) -> List[Fact]:
+        """`x = y` between plain locals: what is known about y's truth / None-ness holds for x afterwards."""
+        a = node.ast
+        if node.kind != "stmt" or not isinstance(a, ast.Assign) or len(a.targets) != 1 or not isinstance(a.targets[0], ast.Name) or not isinstance(a.value, ast.Name) \
+                or a.targets[0].id == a.value.id:
+            return []
+        out = []
+        src, tgt = a.value.id, a.targets[0].id
+        for text, pol in f2:
+            if text == src:
+                out.append(self._fact(ast.Name(id=tgt, ctx=ast.Load()), pol))
+            elif text == f"{src} is None":
+                out.append(self._fact(ast.parse(f"{tgt} is None", mode="eval").body, pol))
+        return [f for f in out if self._tracked(self.exprs[f[0]])]
+
     _PURE_FUNCS = ("isinstance", "len", "hasattr", "callable", "bool", "issubclass")
 
     def _flag_assign(self, node: Node):
@@ -463,6 +478,9 @@ class GuardStates:
                         for cf in self._const_assign_facts(node):
                             if self._tracked(self.exprs[cf[0]]):
                                 f2 = f2 | {cf}
+                        cp = self._copy_facts(node, facts)
+                        if cp:
+                            f2 = f2 | set(cp)
                         fa = self._flag_assign(node)
                         if fa is not None and self._tracked(fa[0]):
                             outs.add(f2 | {self._fact(fa[0], True), self._fact(fa[1], True)})
@@ -530,6 +548,9 @@ class GuardStates:
                 for cf in self._const_assign_facts(node):
                     if self._tracked(self.exprs[cf[0]]):
                         f2 = f2 | {cf}
+                cp = self._copy_facts(node, facts)
+                if cp:
+                    f2 = f2 | set(cp)
                 fa = self._flag_assign(node)
                 if fa is not None and self._tracked(fa[0]):
                     out.append([(self.exprs[t], pol) for (t, pol) in sorted(f2 | {self._fact(fa[0], True), self._fact(fa[1], True)})])
